@@ -180,6 +180,38 @@ theorem trivial_transfer_calls_no_hook (σ : Leaves) (fuel : Nat) (oid : Nat) (d
         Functor.map, StateT.map, hno, hji, hmx, trivialPayload, hk, freshTemp, ProcState.attach, Res.get] <;>
       exact ⟨_, rfl, rfl, rfl⟩
 
+/-- **The `materialize` hook runs only for a relation that is neither statically trivial nor already materialized on
+the way**: whenever the Materialization being processed is statically a join identity or statically empty, or its
+processed target reports a payload (`persisted`), the payload computation leaves the hook log untouched - in either
+engine family, whatever the trees. -/
+theorem materialize_hook_only_when_needed (σ : Leaves) (oid : Nat) (name : String) (target x : Rel) (persisted : Bool)
+    (s : ProcState)
+    (h : persisted = true ∨ (Rel.mat oid name target).isJoinIdentity = true ∨ (Rel.mat oid name target).maxRows = some 0) :
+    ((matPayload σ (.mat oid name target) target x name persisted) s).2.hooks = s.hooks := by
+  unfold matPayload
+  cases persisted with
+  | true =>
+    simp [bind, ExceptT.bind, ExceptT.mk, ExceptT.bindCont, StateT.bind, get, getThe, MonadStateOf.get, StateT.get,
+      liftM, monadLift, MonadLift.monadLift, ExceptT.lift, pure, ExceptT.pure, StateT.pure, Functor.map, StateT.map]
+  | false =>
+    have h' : (Rel.mat oid name target).isJoinIdentity = true ∨ (Rel.mat oid name target).maxRows = some 0 := by
+      rcases h with h | h
+      · cases h
+      · exact h
+    by_cases hji : (Rel.mat oid name target).isJoinIdentity = true
+    · cases hk : target.engine.kind <;>
+        simp [hji, hk, trivialPayload, bind, ExceptT.bind, ExceptT.mk, ExceptT.bindCont, StateT.bind, get, getThe,
+          MonadStateOf.get, StateT.get, set, StateT.set, liftM, monadLift, MonadLift.monadLift, ExceptT.lift, pure,
+          ExceptT.pure, StateT.pure, Functor.map, StateT.map]
+    · have hmz : (Rel.mat oid name target).maxRows = some 0 := by
+        rcases h' with h | h
+        · exact absurd h hji
+        · exact h
+      cases hk : target.engine.kind <;>
+        simp [hji, hmz, hk, trivialPayload, bind, ExceptT.bind, ExceptT.mk, ExceptT.bindCont, StateT.bind, get, getThe,
+          MonadStateOf.get, StateT.get, set, StateT.set, liftM, monadLift, MonadLift.monadLift, ExceptT.lift, pure,
+          ExceptT.pure, StateT.pure, Functor.map, StateT.map]
+
 /-! non-vacuity -/
 private def ta : Tag := ⟨"a", true⟩
 private def e1 : Engine := ⟨1, .iter⟩
@@ -193,6 +225,9 @@ example : (Rel.unary (.sel (.lit true)) (Rel.binary .chain leafP leafP [ta]) [ta
   exact ⟨hp, hp, by decide, by decide⟩
 example : (s0.payloadOf (.transfer 7 e0 doomed)).isSome = false ∧ (Rel.transfer 7 e0 doomed).maxRows = some 0 := by
   decide
+
+/-- a statically empty Materialization: the premise of `materialize_hook_only_when_needed` is met -/
+example : (Rel.mat 12 "z" doomed).maxRows = some 0 := by decide
 
 /-- a materialized selection over a one-row leaf: every hypothesis of the two theorems above is met -/
 private def σ1 : Leaves := fun _ => [fun t => if t = ta then some 1 else none]
